@@ -191,6 +191,16 @@ impl<L: Language> RuleCore<L> {
     }
   }
 
+  /// check that every utility rule this rule refers to is defined
+  pub(crate) fn verify_utils(&self) -> Result<(), RuleCoreError> {
+    crate::check_var::check_utils_defined(
+      &self.rule,
+      &self.registration,
+      &self.constraints,
+      &self.fixer,
+    )
+  }
+
   /// Variables a match of this rule binds to nodes: the captures of the rule, its local utilities
   /// and its constraints. Unlike `defined_vars` this leaves out the keys of `transform`: a
   /// transformed text is no node and is not visible to the fix of a rewriter.
